@@ -677,7 +677,7 @@ def run_check(pid, tier, seed):
     res = F["run"](pid, tier, seed)
     vh = vlib.build_harness()
     known = [k for k in vlib.load_known() if k["prop"] == pid]
-    violations, known_hits, seen_sigs = [], [], set()
+    violations, known_hits, seen_sigs, unreproduced = [], [], set(), []
     if "hang" in res:
         path = os.path.join(outdir, "viol-hang.json")
         json.dump({"property": pid, "clause": "no_termination", "case": res["hang"]}, open(path, "w"))
@@ -713,8 +713,12 @@ def run_check(pid, tier, seed):
                     ok = True
                     break
         if not ok:
-            raise Infra("BAD event did not reproduce on replay (prop %s clause %s): %s"
-                        % (b["prop"], b["clause"], json.dumps(case)[:500]))
+            # history- or schedule-dependent cases may not re-occur in a fresh process; they are never reported as
+            # violations.  If nothing at all reproduces the run is an infrastructure error (exit 2).
+            unreproduced.append("prop %s clause %s: %s" % (b["prop"], b["clause"], json.dumps(case)[:300]))
+            if len(unreproduced) > 8:
+                break
+            continue
         k = [k for k in known if sig.startswith(k["sig"]) or k["sig"] == sig]
         if k:
             known_hits.append(k[0])
@@ -725,6 +729,10 @@ def run_check(pid, tier, seed):
                    "trace": list(b["trace"]), "event": case, "fresh_event": fresh}, open(path, "w"))
         violations.append(path)
         print("VIOLATION property=%s replay=%s" % (pid, path))
+    if unreproduced and not violations and not known_hits:
+        raise Infra("BAD events did not reproduce on replay: " + unreproduced[0])
+    for u in unreproduced:
+        log("not reproduced on replay (not reported): " + u[:200])
     # evidence
     stats = {"evaluations": 0, "distinct_nontrivial": 0, "events": 0, "samples": []}
     for g in res["gens"]:
@@ -747,6 +755,7 @@ def run_check(pid, tier, seed):
         "events": stats["events"],
         "bad_events_all_properties": len([b for b in res.get("bads", []) if b["prop"] != "NOTE"]),
         "conformance_notes": len(conf_notes),
+        "bad_events_not_reproduced_on_replay": len(unreproduced),
         "known_findings_matched": [k["sig"] for k in known_hits],
         "exhaustive": False,
     }
